@@ -518,6 +518,10 @@ func (b *vBess) apply(req *pb.CommandRequest, cmd *vBessCmd) *pb.CommandResponse
 			b.gtpu = map[uint32]int{}
 		}
 	default:
+		if c == "get_summary" || c == "read" {
+			// statistics collection (a metrics scrape reads the measurement modules): this server has none; not a table write
+			return vBessErr(2, "no such module")
+		}
 		b.anomaly("command %q for unknown module %q", c, mod)
 		return vBessErr(2, "no such module")
 	}
